@@ -132,7 +132,7 @@ LIMIT_MSGS = ["too many rules", "input rules are too complicated", "memory alloc
 def mutate(text, rng):
     b = bytearray(text.encode("latin-1", errors="replace"))
     kind = rng.pick(["trunc", "delete", "dup", "insert", "flip", "percent", "brace", "quote", "class", "repeat", "name", "sc", "option",
-                     "longname", "longline", "deep", "manyrules", "bignfa", "garbage", "nul", "crlf", "eofrule", "trail"])
+                     "longname", "longline", "longcode", "deep", "manyrules", "bignfa", "garbage", "nul", "crlf", "eofrule", "trail"])
     n = len(b)
     if kind == "trunc":
         b = b[:rng.below(n + 1)]
@@ -191,6 +191,17 @@ def mutate(text, rng):
             b[i:i] = b"\n%s " + b"S" * L
         else:
             b[0:0] = b"%option prefix=\"" + b"p" * L + b"\"\n"
+    elif kind == "longcode":
+        L = rng.pick([2047, 2048, 4100, 9000, 70000])
+        i = b.find(b"\n%%\n")
+        which = rng.below(3)
+        if which == 0:
+            b[i:i] = b"\n%{\nstatic const char *big_string = \"" + b"s" * L + b"\";\n%}"
+        elif which == 1:
+            b[i:i] = b"\n%{\n/* " + b"-" * L + b" */\n%}"
+        else:
+            j = b.find(b"\n%%\n") + 4
+            b[j:j] = b"q { int v = 0" + b" + 1" * (L // 4) + b"; (void) v; }\n"
     elif kind == "longline":
         L = rng.pick([2047, 2048, 2049, 4096, 20000])
         i = b.find(b"\n%%\n") + 4
@@ -287,6 +298,10 @@ CORPUS = [
     ("option-value-empty", b'%option prefix=""\n%option outfile=""\n%%\na {}\n', []),
     ("mutually-recursive-definitions", b'A {B}x\nB {A}y\n%%\n{A} {}\n', []),                 # fixed 6a0dffb
     ("self-recursive-definition", b'A {A}\n%%\n{A} {}\n', ["-CF"]),
+    ("long-string-in-code-block", b'%option noyywrap\n%{\nstatic const char *big = "' + b'x' * 6000 + b'";\n%}\n%%\na {}\n', []),
+    ("long-expression-in-action", b'%option noyywrap\n%%\na { int v = 0' + b' + 1' * 4000 + b'; (void) v; }\n', []),
+    ("long-comment-in-action", b'%option noyywrap\n%%\na { /* ' + b'=' * 20000 + b' */ }\n', ["-Cf"]),
+    ("long-identifier-in-section-3", b'%option noyywrap\n%%\na {}\n%%\nint ' + b'v' * 30000 + b';\n', []),
     ("recursive-definition-in-class-context", b'A [a]{A}\n%%\nx{A}+/{A} {}\n', []),
 ]
 
